@@ -86,7 +86,7 @@ TODO-OPEN (what remains outside the theorems):
   states (`responses_decode_in_sequence_any_state`; the short-stream theorems are stated for `HeadOK`), no generic field that reads
   `Connection: close` in any letter case (`Header.Set("Connection", "upgrade")` is inside the hypotheses;
   `Header.Set("Connection", "Close")` is exactly the excluded region and the known-finding class
-  `connection-close-case`: `close_decision_announced_fails_at_close_case`), the header's close flag equal to
+  `connection-close-case`, repaired in /repo 9dcdbe5: `close_decision_announced_fails_at_close_case` is about a header state the setters no longer produce), the header's close flag equal to
   `Response.ConnectionClose()`; what a hijack handler itself writes after `Serve` hands the connection over is
   outside the model; `flushedBody` describes `standard.Conn.ReadFrom` (netpoll's writer has no `ReadFrom`: there
   `copyBuffer` flushes after every read — the theorems hold for every `cap`, the per-case comparison is for the
@@ -801,10 +801,13 @@ theorem xUpgrade_good : Good xUpgrade :=
 example : saysClose (expMsg xUpgrade) = false := by
   rw [close_decision_announced xUpgrade xUpgrade_good rfl]; decide
 
-/-- **finding (known-finding class `connection-close-case`)**: without the hypothesis on the generic fields the
-announcement is false — the response reads `Connection: Close`, which every client takes for the `close` option
-(RFC 7230 §6.1), and `Serve` keeps the connection and answers the next pipelined request behind it.  Replayed on the
-real server: `respq Q:GET:1.1:- ST:200 H:436f6e6e656374696f6e:436c6f7365 B:6869 / Q:GET:1.1:- ST:200 B:6869`. -/
+/-- **why the hypothesis on the generic fields is there** (the former finding `connection-close-case`, repaired in `/repo`
+9dcdbe5): in a header STATE that holds the generic field `Connection: Close` with the close flag clear, the announcement is
+false — the response reads `Connection: Close`, which every client takes for the `close` option (RFC 7230 §6.1), while
+`Serve` keeps the connection.  Before the repair `Header.Set("Connection", "Close")` produced exactly this state (replayed
+on the real server then: `respq Q:GET:1.1:- ST:200 H:436f6e6e656374696f6e:436c6f7365 B:6869 / Q:GET:1.1:- ST:200 B:6869`);
+since the repair the setter recognises the option in any letter case and sets the flag, so the state is no longer reachable
+through the API (the driver's `respq` cases with `Close` now require the close). -/
 theorem close_decision_announced_fails_at_close_case :
     ¬ (∀ e : Exch, HeadOK e.r e.p.status → e.early = false → e.r.connClose = e.respClose →
         saysClose (expMsg e) = closes e) := by
